@@ -20,6 +20,9 @@ class _Gen:
         self.r = r
         self.helpers = []
         self.features = set()
+        # a value computed by host-side code before the first @outer loop and used inside the loops (the GPU
+        # translations must hand it to the device kernel as an extra argument)
+        self.hostvar = r.random() < 0.15
 
     def kernel(self):
         r = self.r
@@ -28,6 +31,8 @@ class _Gen:
         if "helper" in self.features:
             helpers = "int hf(const int x) {\n  return 3 * x + 1;\n}\n\n"
         body = "".join(nests)
+        if "host-decl" in self.features:
+            body = "  const int m = n / 2 + 3;\n" + body
         sig = ["const int n", "const int *in0", "const int *in1", "int *out0", "int *out1", "float *fout"]
         if r.random() < 0.3:
             self.features.add("restrict")
@@ -93,6 +98,16 @@ class _Gen:
             out += "  for (int oa = 0; oa < 2; ++oa; @outer) {\n    for (int ob = 0; ob < n / %d; ++ob; @outer) {\n" % (2 * I)
             base = "((oa * (n / %d) + ob) * %d)" % (2 * I, I)
             ind = "    "
+        # explicit loop indices: @outer(1)/@outer(0) and @inner(1)/@inner(0) in the natural order
+        if r.random() < 0.25 and (form == "two" or inner2):
+            self.features.add("explicit-index")
+            if form == "two":
+                out = out.replace("++oa; @outer)", "++oa; @outer(1))").replace("++ob; @outer)", "++ob; @outer(0))")
+            self.explicit_inner = inner2
+        else:
+            self.explicit_inner = False
+        # a regular loop between the @outer loop and the @inner loops: the phases run twice
+        mid = (use_shared or use_excl) and phases > 1 and r.random() < 0.25
         decl = ""
         if use_shared:
             decl += ind + "  @shared int s[%d];\n" % I
@@ -106,7 +121,11 @@ class _Gen:
         out += decl
         # OKL inserts the barriers between sibling @inner loops itself when @shared data is involved
         # (okl/add_barriers); some kernels spell them out, some rely on that
-        explicit = r.random() < 0.6
+        explicit = r.random() < 0.6 or mid
+        if mid:
+            self.features.add("mid-loop")
+            out += ind + "  for (int rep = 0; rep < 2; ++rep) {\n"
+            ind += "  "
         for ph in range(phases):
             if ph > 0 and explicit:
                 out += ind + "  @barrier();\n"
@@ -115,8 +134,9 @@ class _Gen:
                 self.features.add("implicit-barrier")
             if inner2:
                 self.features.add("inner2")
-                out += ind + "  for (int ia = 0; ia < %d; ++ia; @inner) {\n" % (I // 2)
-                out += ind + "    for (int ib = 0; ib < 2; ++ib; @inner) {\n"
+                ix = ("(1)", "(0)") if self.explicit_inner else ("", "")
+                out += ind + "  for (int ia = 0; ia < %d; ++ia; @inner%s) {\n" % (I // 2, ix[0])
+                out += ind + "    for (int ib = 0; ib < 2; ++ib; @inner%s) {\n" % ix[1]
                 iexpr, pad = "(ia * 2 + ib)", ind + "      "
             else:
                 loop = self.r.choice(["up", "up", "down"])
@@ -132,6 +152,11 @@ class _Gen:
             if inner2:
                 out += ind + "    }\n"
             out += ind + "  }\n"
+        if mid:
+            # the next repetition rewrites what this one's last phase reads
+            out += ind + "  @barrier();\n"
+            ind = ind[:-2]
+            out += ind + "  }\n"
         out += ind + "}\n"
         if form == "two":
             out += "  }\n"
@@ -139,6 +164,9 @@ class _Gen:
 
     def val(self, g):
         r = self.r
+        if self.hostvar and r.random() < 0.3:
+            self.features.add("host-decl")
+            return "(in0[%s] + m)" % g
         x = r.random()
         if x < 0.3:
             return "in0[%s]" % g
@@ -164,6 +192,10 @@ class _Gen:
             if use_excl_ptr:
                 out += pad + "p = out1 + (8 + in0[%s] %% 3);\n" % g
         terms = [self.val(g)]
+        if r.random() < 0.2:
+            self.features.add("loop-in-inner")
+            out += pad + "int acc = 0;\n" + pad + "for (int t = 0; t < 3; ++t) {\n" + pad + "  acc += in1[(%s + t) %% 64];\n" % g + pad + "}\n"
+            terms.append("acc")
         # a phase that rewrites its own tile element may read only that element (other elements are
         # being written by sibling iterations of the same phase)
         rewrite = ph > 0 and use_shared and not last and r.random() < 0.3
@@ -224,9 +256,9 @@ def reference(src):
         l = l.replace("@restrict ", "").replace(" @dim(8, 8)", "").replace(" @simd_length(4)", "")
         l = l.replace("out0(g % 8, g / 8)", "out0[g % 8 + 8 * (g / 8)]")
         l = re.sub(r";\s*@tile\(\d+, @outer, @inner\)\)", ")", l)
-        l = re.sub(r";\s*@outer\)", ")", l)
-        if re.search(r";\s*@inner\)", l):
-            l = re.sub(r";\s*@inner\)", ")", l)
+        l = re.sub(r";\s*@outer(\(\d\))?\)", ")", l)
+        if re.search(r";\s*@inner(\(\d\))?\)", l):
+            l = re.sub(r";\s*@inner(\(\d\))?\)", ")", l)
         # an @exclusive value belongs to the work item, i.e. to the *position* in the inner loop's iteration
         # order, not to the iterator value: a loop that counts down visits position 0 with its largest value
         mdown = re.match(r"\s*for \(int i = (\d+); i >= 0; --i\)", l)
